@@ -46,6 +46,13 @@ def norm_audit(rec, drop=NORM_DROP):
     out["Upstream"] = {k: norm_audit(v, drop) for k, v in (rec.get("Upstream") or {}).items()}
     return out
 
+def scrub(obj, rr):
+    """records of runs in different scratch directories: the directory (absolute outputs) and its name (../<name>/ outputs) are replaced"""
+    wd = getattr(rr, "workdir", None)
+    if not wd: return obj
+    txt = json.dumps(obj).replace(wd, "$PWD").replace(os.path.basename(wd), "$PWDNAME")
+    return json.loads(txt)
+
 def load_audits(snap):
     out = {}
     for p, v in snap.items():
@@ -236,6 +243,39 @@ def check_C10(tier):
             else: chk.violation(msg, dict(instance=inst, record={k: rec[k] for k in ("ProcessName", "Tags")}))
         elif not all(t.get("batch") == "b7" for t in member_tags):
             chk.violation("sub-stream member records lost the tag attached by MapToTags: %s" % member_tags, dict(instance=inst))
+    # a process with a joined in-port AND ordinary in-ports: every input file is an Upstream key (repeated: map iteration order)
+    jnh = dict(name="JNH", max=2, bufsize=4,
+               procs=[src("s", zoo.items(2)), cmd("a", ["in"]), dict(name="ss", kind="substream"), src("h", ["hd"]), src("f", ["ft"]),
+                      dict(name="cat", kind="cmd", ins=["files", "head", "zfoot"], outs=["out"], joins={"files": " "}, outpaths={"out": "o/merged.txt"},
+                           arg="cat {i:head} {i:files|join: } {i:zfoot} > {o:out}")],
+               edges=[E("s.out", "a.in"), E("a.out", "ss.in"), E("ss.substream", "cat.files"), E("h.out", "cat.head"), E("f.out", "cat.zfoot")])
+    for rr in fc.real_runs(jnh, [dict(env={}, bufsize=4, timeout=30) for _ in range(6)]):
+        chk.evaluations += 1
+        aud = rr.snapshot.get("o/merged.txt.audit.json", {}).get("text")
+        if rr.rc != 0 or not aud:
+            chk.undecided.append("joined + ordinary in-ports scenario failed: %s" % rr.stderr[-200:]); break
+        ups = set((json.loads(aud).get("Upstream") or {}).keys())
+        want = {"o/a.out_1.txt", "o/a.out_2.txt", "in/hd.txt", "in/ft.txt"}
+        if ups != want:
+            chk.violation("o/merged.txt.audit.json: Upstream keys %s, expected every input file %s (process with a joined in-port and two ordinary in-ports)" % (sorted(ups), sorted(want)), dict(instance=jnh)); break
+    else:
+        chk.nontrivial.add("joined+ordinary in-ports")
+    # an audit file left over from an earlier, longer record at the same path (outputs deleted, audit files kept, parameter shortened)
+    stale = dict(name="STALEAUD", max=1, bufsize=2,
+                 procs=[src("s", ["1"]), dict(name="a", kind="cmd", ins=["in"], outs=["out"], params=["p"], outpaths={"out": "o/a.fix_{i:in|basename}"}), cmd("b", ["x"])],
+                 edges=[E("s.out", "a.in"), E("a.out", "b.x")], feeds=[dict(to="a.p", values=["L" * 400])])
+    h = fs.History(stale, [("run", None), ("delete", ["a.fix_1", "b.out_a.fix_1"], False), ("spec", dict(feeds=[dict(to="a.p", tp="a", values=["s"])])), ("run", None)],
+                   label="long record, outputs deleted (audit files kept), re-run with a shorter record"); h.accept = False; h.exp = None
+    fs.run_history(h); chk.evaluations += 2
+    last = h.runs[-1]
+    bad = []
+    for pth, v in last.snapshot.items():
+        if pth.endswith(".audit.json") and v.get("kind") == "file" and pth[:-len(".audit.json")] in last.snapshot:
+            try: json.loads(v.get("text") or "")
+            except ValueError: bad.append(pth)
+    if bad:
+        chk.violation("audit files that are not valid JSON after a re-run that wrote a shorter record over a longer stale one: %s" % bad, dict(instance=stale))
+    elif last.rc == 0: chk.nontrivial.add("stale longer audit file")
     # lineage of the specification vs projected real records: complete runs as one-step histories
     for inst in [FA(), FB(), FD()] + ([FC()] if thorough else []):
         hs = [fs.History(inst, [("run", None)], label="complete run")]
@@ -262,7 +302,7 @@ def check_C11(tier):
     def make_judge(inst):
         exp = fc.expected(inst)
         base = fc.real_runs(inst, [dict(env={}, bufsize=2)])[0]
-        base_aud = {k: norm_audit(v) for k, v in load_audits(base.snapshot).items()}
+        base_aud = {k: scrub(norm_audit(v), base) for k, v in load_audits(base.snapshot).items()}
         def judge(h, exp2):
             last = h.runs[-1]
             if not last.completed: return
@@ -272,7 +312,7 @@ def check_C11(tier):
                 R.report("C11", "after history '%s' the files differ from an uninterrupted run: %s" % (h.label, sorted(set(final_ids(last.snapshot)) ^ set(final_ids(base.snapshot)))[:6]), h)
             for path, rec in aud.items():
                 if path not in base_aud: continue
-                if norm_audit(rec) != base_aud[path] and not f7:
+                if scrub(norm_audit(rec), last) != base_aud[path] and not f7:
                     R.report("C11", "after history '%s' the lineage in %s.audit.json differs from an uninterrupted run" % (h.label, path), h)
                 # ancestor records (at any depth) identical to those on disk
                 if not f7:
@@ -281,9 +321,18 @@ def check_C11(tier):
     from . import fs as fsmod
     z3 = zoo.Z3(n=3, mx=2); z3["ctl"] = {"a.sleep": "0.12"}     # diamond with a positional join; recomputed tasks are slow
     tg3 = TG3()
-    for inst in [FA(), FB(), z3, tg3, LONGCMD()] + ([FD(), zoo.Z3(n=2, mx=1), TGT()] if thorough else []):
+    from .fs import FE
+    dots = FB(); dots["name"] = "FBDOT"          # outputs declared with an unclean relative path (./o/...)
+    for p in dots["procs"]:
+        if p["kind"] != "src": p["outdir"] = "./o/"
+    chain3 = dict(name="CH3", max=1, bufsize=2, mkdirs=["o"],      # three tasks in a row, outputs reached through the parent directory
+                  procs=[src("s", ["1"]), cmd("a", ["in"]), cmd("b", ["x"]), cmd("c", ["x"])],
+                  edges=[E("s.out", "a.in"), E("a.out", "b.x"), E("b.out", "c.x")])
+    for p in chain3["procs"]:
+        if p["kind"] != "src": p["outdir"] = "../$PWDNAME/o/"
+    for inst in [FA(), FB(), z3, tg3, LONGCMD(), FE("parent"), FE("abs"), dots, chain3] + ([FD(), zoo.Z3(n=2, mx=1), TGT()] if thorough else []):
         exp = fc.expected(inst)
-        hs = crash_histories(inst, rng, n=None if thorough else 16, depth2=6 if thorough else 2, cleaned=True) if inst["name"] not in ("Z3", "TG3", "TGT", "LONGCMD") else []
+        hs = crash_histories(inst, rng, n=None if thorough else 16, depth2=6 if thorough else 2, cleaned=True) if inst["name"] not in ("Z3", "TG3", "TGT", "LONGCMD", "FEparent", "FEabs", "FBDOT", "CH3") else []
         cmds = [p["name"] for p in inst["procs"] if p["kind"] in ("cmd", "gofunc")]
         # RunTo split: first the upstream part, then everything
         for tgt in cmds[:-1]:
